@@ -80,6 +80,12 @@ let st_state = ref C.empty
 let handle_storage (t : string list) : string =
   match t with
   | ["RESET"] -> st_state := C.empty; "RESET"
+  | ["UpdPtr"; a; pa; i; ma; mpa; mi] ->
+    let p = ((oi a, oi pa), oi i) in
+    let m = { C.m_id = ni mi; m_group = n_of_int 0; m_pubkey = n_of_int 0; m_kind = n_of_int 9; m_created = ni ma; m_processed = ni mpa;
+              m_content = n_of_int 0; m_tags = n_of_int 0; m_wrapper = n_of_int 0; m_epoch = None; m_state = n_of_int 1 } in
+    let ((a', pa'), i') = C.upd_ptr p m in
+    Printf.sprintf "ptr:%s,%s,%s moved=%d" (so a') (so pa') (so i') (if C.upd_ptr p m = p then 0 else 1)
   | opname :: _ ->
     let (s', r) = C.step !st_state (parse_op t) in
     st_state := s'; show_res opname r
